@@ -71,7 +71,9 @@ def processing_clause(cl, rng, n, replay):
                     signature="proc:single", azimuth=az)
             return
         # azimuthal == stack, rotdpp bounds and monotonicity
-        azs = [np.array([20.]), np.array([10., 30., 75.]), np.arange(0, 180, 35.), np.array([30., 120.]), np.arange(0, 180, 45.)][j % 5]
+        # the azimuths are the caller's list as given: any order, repeated values allowed
+        azs = [np.array([20.]), np.array([10., 30., 75.]), np.arange(0, 180, 35.), np.array([30., 120.]), np.arange(0, 180, 45.),
+               np.array([90., 0., 45.]), np.array([120., 30., 30., 75.]), np.arange(150., -1., -50.)][j % 8]
         stack = np.array([hvsrpy.process([mk()], sa(float(a))).amplitude[0] for a in azs])
         hz = hvsrpy.process([mk()], hvsrpy.HvsrAzimuthalProcessingSettings(smoothing=SM, azimuths_in_degrees=azs, window_type_and_width=list(taper)))
         got = np.array([x.amplitude[0] for x in hz.hvsrs])
